@@ -25,8 +25,9 @@ package snowflake_proxy
 //@   ensures t.clients == old(t.clients) - 1
 //@   ensures recvs(t.ch) == old(recvs(t.ch)) + ite(t.capacity != 0, 1, 0) && sends(t.ch) == old(sends(t.ch))
 //
-//@ func (t tokens_t) count() (r int64)
+//@ func (t *tokens_t) count() (r int64)
 //@   props C16
+//@   assumes t != nil
 //@   ensures r == t.clients
 //
 // ---- session slots (C16) and the relay gate (C06) ----
@@ -100,3 +101,7 @@ package snowflake_proxy
 //@   props C13
 //@   flag nosafety
 //@   ensures {nil-or-ip-address} a == nil || tagis(a, *net.IPAddr)
+//
+// ---- guarded-by declarations (C20) ----
+//@ guarded webRTCConn.dc by lock
+//@ guarded tokens_t.clients atomic
